@@ -90,6 +90,14 @@ check("C03", "model_checking",
       "Trusted: the skeleton/expected mapping in checks/c03.py; for multi-name statements the oracle accepts the comment on at least one declared name and nothing else; mid-line admonition start markers are not generated.",
       "bounded-exhaustive product (adjacent pairs x styles x separators x markers; block sequences) with tracer-word oracle", "DESIGN.md 5/C03")
 
+check("C09", "model_checking",
+      "Full product of the project cardinalities the templates branch on (files, modules, programs, procedures, types, abstract interfaces, block data, namelists; each with "
+      "sources shown and hidden) plus 18 richer base shapes (submodules, generic interfaces, private specifics) x every option vector with <= 1 (thorough: <= 2 on a subset) "
+      "deviations over 11 option sites (graph variants incl. table rendering, search, pages at depth 0-2, display, sort, ...). Each site is built by the real ford pipeline; "
+      "a link resolver checks every URL of every page and of the search index (relative, existing file, existing id) and that no file embeds the absolute output path; thorough moves the tree and re-checks.",
+      "Trusted: the link resolver (mc/site.py, html.parser based) and the project generator (mc/projgen.py). `dot` is stubbed: links inside real SVG are outside this check. Relative mode only (project_url empty).",
+      "bounded-exhaustive enumeration of project shapes x deviation-bounded option vectors with a link-resolving oracle", "DESIGN.md 5/C09")
+
 ALL = [f"C{i:02d}" for i in range(1, 21)]
 PENDING_REASON = "check not built yet in this round (planned: see DESIGN.md section 5); will be claimed once its exhaustive check exists"
 
